@@ -396,17 +396,7 @@ def r05_4(ctx, v, g, helpers):
             break
     ctx.check(bad is None, "R05.4", g.where(region_loop), "every region is searched and all nodes found under it (their ids) are added to the node list", key_of(g, f"region-flow:{bad[1] if bad else ''}"), paths=len(paths), **({"path": bad[0].show(), "why": bad[1]} if bad else {}))
     # the search is handed this region's own contig / start / end and the node list of that contig
-    a = call.args
-    trip = a[0]
-    ok = isinstance(trip, (ast.List, ast.Tuple)) and len(trip.elts) == 3
-    if ok:
-        idx = {norm(e.slice) for e in trip.elts if isinstance(e, ast.Subscript)}
-        ok = len(idx) == 1
-        # a bare name in the contig position must be the loop's own contig variable
-        names = [e for e in trip.elts if isinstance(e, ast.Name)]
-        loop_vars = {norm(x) for x in (region_loop.target.elts if isinstance(region_loop.target, ast.Tuple) else [region_loop.target])}
-        ok = ok and all(nm.id in loop_vars for nm in names)
-    ctx.check(ok, "R05.4", g.where(call), "the search receives contig, start and end of one and the same region", key_of(g, f"search-args:{norm(trip)}"))
+    region_triple(ctx, g, region_loop, call)
     # the per-contig list: all index keys of that contig (tuple keys), sorted by start
     filt = [n for n in walk_own(g.node) if isinstance(n, ast.Compare) and len(n.ops) == 1 and isinstance(n.ops[0], ast.Eq) and isinstance(n.left, ast.Subscript) and const_value(n.left.slice) == 1 and isinstance(n.comparators[0], ast.Name)]
     ctx.check(len(filt) == 1, "R05.4", g.where(), "the nodes searched for a region are the index entries of the region's contig (key position 1 == contig)", key_of(g, f"contig-filter:{[norm(x) for x in filt]}"))
@@ -465,34 +455,107 @@ def r05_7(ctx, v):
 
 
 def r05_8(ctx, g):
-    """Region text CONTIG:a-b: contig = part before ':', a = first and b = last part of the '-' split of the remainder."""
-    import re as _re
+    """(decided together with R05.4 by region_triple: the three values handed to the search are, symbolically in the
+    region text R of the same iteration, R.split(':')[0], R.split(':')[1].split('-')[0] and ...split('-')[-1])"""
+    return
 
-    roles = {}
+
+class _Sub(ast.NodeTransformer):
+    def __init__(self, names, subs):
+        self.names, self.subs = names, subs
+
+    def visit_Subscript(self, node):
+        t = norm(node)
+        if t in self.subs:
+            import copy
+
+            return copy.deepcopy(self.subs[t])
+        return self.generic_visit(node)
+
+    def visit_Name(self, node):
+        if isinstance(node.ctx, ast.Load) and node.id in self.names:
+            import copy
+
+            return copy.deepcopy(self.names[node.id])
+        return node
+
+
+def region_triple(ctx, g, region_loop, call):
+    """Symbolic value, in terms of the region text R of the current iteration, of the three elements handed to the
+    search: through parallel lists built by comprehensions over the regions, enumerate / zip / range(len()) loops and
+    temporaries of the loop body."""
+    import copy
+
+    from ..core import local_defs
+
+    R = ast.Name(id="R", ctx=ast.Load())
+    regions = g.params[0]
+    # parallel lists: L = [E(x) for x in regions]
+    per = {}
     for st in walk_own(g.node):
-        if isinstance(st, ast.Assign) and isinstance(st.value, ast.ListComp) and len(st.value.generators) == 1:
-            x = norm(st.value.generators[0].target)
-            e = norm(st.value.elt)
-            if e == f"{x}.split(':')[0]":
-                roles["contig"] = norm(st.targets[0])
-            elif e in (f"{x}.split(':')[1].split('-')[0]",):
-                roles["start"] = norm(st.targets[0])
-            elif e in (f"{x}.split(':')[1].split('-')[-1]", f"{x}.split(':')[1].split('-')[1]"):
-                roles["end"] = norm(st.targets[0])
-            elif ".split(" in e:
-                roles.setdefault("other", []).append((norm(st.targets[0]), e))
-    if "other" in roles or set(roles) != {"contig", "start", "end"}:
-        if not roles:
-            raise AnalysisError("R05.8", g.where(), "region parsing is not of the recognised list-comprehension form")
-        ctx.violated("R05.8", g.where(), f"region text is not split into contig / start / end as CONTIG:a-b requires: {roles}", key_of(g, f"region-parse:{sorted((k, str(v)) for k, v in roles.items())}"))
-        return
-    ctx.holds("R05.8", g.where(), "a region CONTIG:a-b is split into contig (before ':'), a (first) and b (last part of the '-' split)", roles=roles)
-    # the search receives them in that order
-    calls = [c for c in walk_own(g.node) if isinstance(c, ast.Call) and c.args and isinstance(c.args[0], (ast.List, ast.Tuple)) and len(c.args[0].elts) == 3]
-    for c in calls:
-        e = c.args[0].elts
-        names = []
-        for x in e:
-            names.append(norm(x.value) if isinstance(x, ast.Subscript) else norm(x))
-        ok = names[1] == roles["start"] and names[2] == roles["end"]
-        ctx.check(ok, "R05.8", g.where(c), "the search is given (contig, start, end) in this order", key_of(g, f"search-triple:{names}"), triple=names)
+        if isinstance(st, ast.Assign) and isinstance(st.targets[0], ast.Name) and isinstance(st.value, ast.ListComp) and len(st.value.generators) == 1 and norm(st.value.generators[0].iter) == regions and not st.value.generators[0].ifs and isinstance(st.value.generators[0].target, ast.Name):
+            x = st.value.generators[0].target.id
+            per[st.targets[0].id] = _Sub({x: R}, {}).visit(copy.deepcopy(st.value.elt))
+
+    def elem_of(listexpr):
+        """expression for the current element of a list iterated in lock step with the regions"""
+        t = norm(listexpr)
+        if t == regions:
+            return R
+        if t in per:
+            return per[t]
+        return None
+
+    names, subs = {}, {}
+    it = region_loop.iter
+    tg = region_loop.target
+    fn = norm(it.func) if isinstance(it, ast.Call) else None
+    if fn == "enumerate" and isinstance(tg, ast.Tuple) and len(tg.elts) == 2:
+        e = elem_of(it.args[0])
+        if e is not None:
+            names[norm(tg.elts[1])] = e
+        idx = norm(tg.elts[0])
+        for L in list(per) + [regions]:
+            subs[f"{L}[{idx}]"] = elem_of(ast.Name(id=L, ctx=ast.Load()))
+    elif fn == "zip" and isinstance(tg, ast.Tuple) and len(tg.elts) == len(it.args):
+        for t_, a_ in zip(tg.elts, it.args):
+            e = elem_of(a_)
+            if e is not None:
+                names[norm(t_)] = e
+    elif fn == "range" and isinstance(tg, ast.Name):
+        idx = tg.id
+        for L in list(per) + [regions]:
+            subs[f"{L}[{idx}]"] = elem_of(ast.Name(id=L, ctx=ast.Load()))
+    elif isinstance(tg, ast.Name) and elem_of(it) is not None:
+        names[tg.id] = elem_of(it)
+    else:
+        raise AnalysisError("R05.8", g.where(region_loop), "the loop over the regions is not an enumerate / zip / range / direct iteration over lists parallel to the regions")
+    trip = call.args[0] if call.args else None
+    if not (isinstance(trip, (ast.List, ast.Tuple)) and len(trip.elts) == 3):
+        raise AnalysisError("R05.8", g.where(call), "the search is not handed a (contig, start, end) triple")
+    # temporaries of the loop body (single definition)
+    ld = local_defs(ast.Module(body=region_loop.body, type_ignores=[]))
+    temps = {k: v[0] for k, v in ld.items() if len(v) == 1 and v[0] is not None and k not in names}
+
+    def resolve(e, depth=0):
+        e = copy.deepcopy(e)
+        for _ in range(4):
+            e2 = _Sub({**temps, **names}, subs).visit(copy.deepcopy(e))
+            if norm(e2) == norm(e):
+                break
+            e = e2
+        ast.fix_missing_locations(e)
+        return norm(e)
+
+    got = [resolve(x) for x in trip.elts]
+    rest = "R.split(':')[1]"
+    want = (["R.split(':')[0]"], [f"{rest}.split('-')[0]"], [f"{rest}.split('-')[-1]", f"{rest}.split('-')[1]"])
+    unresolved = [t for t in got if "R" not in {n.id for n in ast.walk(ast.parse(t, mode="eval")) if isinstance(n, ast.Name)}]
+    if unresolved:
+        raise AnalysisError("R05.8", g.where(call), f"cannot express the search triple in terms of the region text: {got}")
+    others = {n.id for t in got for n in ast.walk(ast.parse(t, mode="eval")) if isinstance(n, ast.Name)} - {"R", "int", "str"}
+    same = not others
+    ctx.check(same, "R05.4", g.where(call), "the search receives contig, start and end of one and the same region", key_of(g, f"search-args:{got}"), triple=got)
+    strip = [t[4:-1] if t.startswith("int(") and t.endswith(")") else t for t in got]
+    ok = all(t in w for t, w in zip(strip, want))
+    ctx.check(ok, "R05.8", g.where(call), "a region CONTIG:a-b is handed to the search as contig = text before ':', start = first and end = last part of the '-' split of the remainder", key_of(g, f"region-parse:{strip}"), triple=strip)
